@@ -27,7 +27,7 @@ namespace dzn
     T* try_get(const std::string& key = "") const
     {
       auto it = services.find(make_key<T>(key));
-      return it == services.end() ? nullptr : reinterpret_cast<T*>(it->second);
+      return it == services.end() ? nullptr : reinterpret_cast<T*>(const_cast<void*>(it->second));
     }
     template <typename T>
     T& get(const std::string& key = "") const
@@ -36,13 +36,13 @@ namespace dzn
       throw std::runtime_error(std::string("<") + typeid(T).name() + ",\"" + key + "\"> not available");
     }
     // harness-only observer (not part of the Dezyne API)
-    std::map<std::string, void*> verif_contents() const { return services; }
+    std::map<std::string, const void*> verif_contents() const { return services; }
 
   private:
     locator(const locator&) = default;
     template <typename T>
     static std::string make_key(const std::string& key) { return std::string(typeid(T).name()) + "|" + key; }
-    std::map<std::string, void*> services;
+    std::map<std::string, const void*> services;      // as in Dezyne: const objects can be registered too
   };
 }
 #endif
